@@ -69,6 +69,17 @@ C16_Vec_Failed(in, obs) ==
                  (in.start <= in.pos[j] /\ in.pos[j] <= EffEnd(in)) => FloorDiv(in.pos[j] - in.start, in.res) < n
            THEN {} ELSE {"every_label_between_start_and_end_is_covered"})
 
+\* OpticalMap.getSequence / SequenceGenerator.positionsToSequence: the blurred vector of a window (strand already undone)
+C16_Seq_Failed(in, r, obs) ==
+    LET n == Len(obs)
+        inBin(i) == \E j \in 1..Len(in.pos) : in.start + i * in.res <= in.pos[j] /\ in.pos[j] < in.start + (i + 1) * in.res
+    IN (IF \A i \in 1..n : obs[i] \in {0, 1} THEN {} ELSE {"bits_are_0_or_1"})
+     \cup (IF \A i \in 0..(n-1) : (obs[i+1] = 1) <=> \E j \in 0..(n-1) : inBin(j) /\ i - j <= r /\ j - i <= r
+           THEN {} ELSE {"sequence_bit_iff_label_within_radius_of_bin"})
+     \cup (IF \A j \in 1..Len(in.pos) :
+                 (in.start <= in.pos[j] /\ in.pos[j] <= EffEnd(in)) => FloorDiv(in.pos[j] - in.start, in.res) < n
+           THEN {} ELSE {"every_label_between_start_and_end_is_covered"})
+
 C16_Blur_Failed(v, r, obs) ==
     (IF Len(obs) = Len(v) THEN {} ELSE {"blur_keeps_length"})
     \cup (IF Len(obs) = Len(v) /\ \A i \in 1..Len(v) :
